@@ -8,6 +8,7 @@ import (
 	"encoding/json"
 	"fmt"
 	"strings"
+	"time"
 
 	cbor "github.com/fxamacker/cbor/v2"
 	"github.com/veraison/eat"
@@ -101,7 +102,7 @@ func registerStandardExt() {
 		}
 	}
 	// (the last one has a name that sorts before the built-in profiles' names)
-	for _, p := range []psatoken.IProfile{ExtLaxIDProfile{}, ExtDefaultingProfile{}, ExtShadowProfile{}, ExtOddFieldsProfile{}, ExtP1With265Profile{}, ExtTwoEmbedsProfile{}, ExtRawProfile{}, ExtProfile{"http://acme.example/psa", 2}} {
+	for _, p := range []psatoken.IProfile{ExtLaxIDProfile{}, ExtDefaultingProfile{}, ExtShadowProfile{}, ExtOddFieldsProfile{}, ExtP1With265Profile{}, ExtTwoEmbedsProfile{}, ExtRawProfile{}, ExtPlainProfile{}, ExtProfile{"http://acme.example/psa", 2}} {
 		if _, _, ok := psatoken.VerifRegistryEntry(p.GetName()); !ok {
 			if err := psatoken.RegisterProfile(p); err != nil {
 				panic(err)
@@ -772,4 +773,61 @@ type PlainPtrEmbedClaims struct {
 type PlainTwoPtrClaims struct {
 	*PlainPtrEmbedClaims
 	Vendor *string `cbor:"-75400,keyasint,omitempty" json:"vendor,omitempty"`
+}
+
+// ---- a claims type written from scratch (C09): it declares the base fields itself (through a method-less copy of the
+// profile-2 struct), has NO encoding methods, and adds claims of Go types the built-in profiles do not use (a time, a
+// float, a boolean, a 64-bit unsigned): what encodes and decodes it are the library's own encoder and decoder modes ----
+
+type P2Fields psatoken.P2Claims // same fields, no methods
+
+type ExtPlainClaims struct {
+	P2Fields
+	IssuedAt *time.Time `cbor:"6,keyasint,omitempty" json:"iat,omitempty"`
+	Ratio    *float64   `cbor:"-75700,keyasint,omitempty" json:"ratio,omitempty"`
+	Flag     *bool      `cbor:"-75701,keyasint,omitempty" json:"flag,omitempty"`
+	Big      *uint64    `cbor:"-75702,keyasint,omitempty" json:"big,omitempty"`
+}
+
+const ExtPlainName = "http://example.com/psa/plain-type"
+
+func (o *ExtPlainClaims) b() *psatoken.P2Claims                 { return (*psatoken.P2Claims)(&o.P2Fields) }
+func (o *ExtPlainClaims) Validate() error                       { return psatoken.ValidateClaims(o) }
+func (o *ExtPlainClaims) GetProfile() (string, error)           { return o.b().GetProfile() }
+func (o *ExtPlainClaims) GetClientID() (int32, error)           { return o.b().GetClientID() }
+func (o *ExtPlainClaims) GetSecurityLifeCycle() (uint16, error) { return o.b().GetSecurityLifeCycle() }
+func (o *ExtPlainClaims) GetImplID() ([]byte, error)            { return o.b().GetImplID() }
+func (o *ExtPlainClaims) GetBootSeed() ([]byte, error)          { return o.b().GetBootSeed() }
+func (o *ExtPlainClaims) GetCertificationReference() (string, error) {
+	return o.b().GetCertificationReference()
+}
+func (o *ExtPlainClaims) GetSoftwareComponents() ([]psatoken.ISwComponent, error) {
+	return o.b().GetSoftwareComponents()
+}
+func (o *ExtPlainClaims) GetNonce() ([]byte, error)           { return o.b().GetNonce() }
+func (o *ExtPlainClaims) GetInstID() ([]byte, error)          { return o.b().GetInstID() }
+func (o *ExtPlainClaims) GetVSI() (string, error)             { return o.b().GetVSI() }
+func (o *ExtPlainClaims) SetClientID(v int32) error           { return o.b().SetClientID(v) }
+func (o *ExtPlainClaims) SetSecurityLifeCycle(v uint16) error { return o.b().SetSecurityLifeCycle(v) }
+func (o *ExtPlainClaims) SetImplID(v []byte) error            { return o.b().SetImplID(v) }
+func (o *ExtPlainClaims) SetBootSeed(v []byte) error          { return o.b().SetBootSeed(v) }
+func (o *ExtPlainClaims) SetCertificationReference(v string) error {
+	return o.b().SetCertificationReference(v)
+}
+func (o *ExtPlainClaims) SetSoftwareComponents(v []psatoken.ISwComponent) error {
+	return o.b().SetSoftwareComponents(v)
+}
+func (o *ExtPlainClaims) SetNonce(v []byte) error  { return o.b().SetNonce(v) }
+func (o *ExtPlainClaims) SetInstID(v []byte) error { return o.b().SetInstID(v) }
+func (o *ExtPlainClaims) SetVSI(v string) error    { return o.b().SetVSI(v) }
+
+type ExtPlainProfile struct{}
+
+func (ExtPlainProfile) GetName() string { return ExtPlainName }
+func (ExtPlainProfile) GetClaims() psatoken.IClaims {
+	ep := eat.Profile{}
+	if err := ep.Set(ExtPlainName); err != nil {
+		panic(err)
+	}
+	return &ExtPlainClaims{P2Fields: P2Fields{Profile: &ep, SwComponents: &psatoken.SwComponents[*psatoken.SwComponent]{}, CanonicalProfile: ExtPlainName}}
 }
